@@ -128,9 +128,10 @@ let impl_verdict = function
   | x -> raise (Sexp_error ("verdict: " ^ print_sexp x))
 
 (* ---- quirks and causes ---- *)
+(* int-accepts-non-int32 and id-accepts-non-integer-number were here until their repair in /repo: their flags are
+   off in go_quirks, so a non-integral / out-of-range number accepted again for Int or ID is a model mismatch and an
+   unexplained specification failure (a VIOLATION), not a known finding *)
 let quirk_keys = [
-  "int-accepts-non-int32", (fun q -> { q with q_int_any_number = false });
-  "id-accepts-non-integer-number", (fun q -> { q with q_id_any_number = false });
   "upload-exempt-from-non-null", (fun q -> { q with q_upload_exempt = false });
 ]
 
@@ -230,7 +231,7 @@ let handle (x : sexp) : (string * string) list =
     (* the specification takes a variable's default to be valid (operation validation's job): a generated
        default that is not a value of its type is a generator error, not a finding *)
     List.iter (fun vd -> match vd.vd_default with
-        | Some dv when not (coercible weak sch vd.vd_type false (Some (value_to_json dv))) ->
+        | Some dv when not (coercible std sch vd.vd_type false (Some (value_to_json dv))) ->
           add "error" ("generator: the default of $" ^ s_of vd.vd_name ^ " is not a value of its type")
         | _ -> ()) vds;
     let spec = coercible_all std sch vds j in
